@@ -23,6 +23,12 @@ TInit == /\ PInit
 RECURSIVE NodeAt(_, _, _)
 NodeAt(h, id, path) == IF Len(path) = 0 THEN id ELSE NodeAt(h, h[id].kids[path[1]], Tail(path))
 
+RECURSIVE PathValid(_, _, _)
+PathValid(h, id, path) ==
+  \/ Len(path) = 0
+  \/ /\ h[id].t = "I" /\ path[1] \in 1..Len(h[id].kids)
+     /\ PathValid(h, h[id].kids[path[1]], Tail(path))
+
 Has_(k) == k \in Dom(m)
 Keys_ == AbsKeys(m)
 \* what the call must answer, from Layer A
@@ -69,6 +75,7 @@ ExpRC(e) ==
 Tainted == ~(HItems(heap') = <<AbsKeys(m'), AbsVals(m')>> /\ HSound(heap'))
 Match(e) ==
   IF e.sticky # <<>> THEN "pinned-after-return"
+  ELSE IF e.op = "evict" /\ ~PathValid(heap, Root, e.path) THEN "evicted-node-is-not-in-the-specified-tree"
   ELSE IF e.op \in {"evict", "evictall"} THEN "-"
   ELSE IF e.op \in {"commit", "abort"} THEN (IF Proj(heap', Root) # e.proj THEN "writer-structure" ELSE "-")
   ELSE IF taint # 0 THEN (IF ~IsRead(e) /\ Proj(heap', Root) # e.proj THEN "writer-structure" ELSE "-")
@@ -117,7 +124,7 @@ TNext ==
         \/ /\ e.op = "commit" /\ Commit
         \/ /\ e.op = "abort" /\ Abort
         \/ /\ e.op = "evictall" /\ Evict(Evictable, "evictall")
-        \/ /\ e.op = "evict" /\ Evict({NodeAt(heap, Root, e.path)}, "evict")
+        \/ /\ e.op = "evict" /\ (IF PathValid(heap, Root, e.path) THEN Evict({NodeAt(heap, Root, e.path)}, "evict") ELSE Stutter)
      /\ why' = LET w == Match(e) IN IF w # "-" /\ D35Prone(e) THEN "D35:" \o w ELSE w
   /\ bad' = IF why' = "-" THEN 0 ELSE l
   /\ taint' = IF taint # 0 THEN taint ELSE IF Tainted THEN l ELSE 0
